@@ -17,7 +17,7 @@ CHECKS = {
         level="exploration",
         runs=[dict(name="aws", target="h_aws", args=[], quick=["--k", "4"], thorough=["--k", "4"],
                    env={"TZ": "VFT-13"})],   # a non-UTC local zone: a signer that used local time would be seen
-        deadline=dict(quick=150, thorough=900),   # deep: ~300 s measured on a loaded machine (about 1000 CPU-seconds)
+        deadline=dict(quick=150, thorough=900),   # deep: ~200 s measured at load average 20 (about 1250 CPU-seconds; 2.5x that wall time when the machine is saturated by others)
         rule=("per variant every combination of input values in which at most K dimensions (key id, secret, region, method, bucket, path, "
               "service, op, body, expiry, clock) deviate from their default; a case is non-trivial when the signer succeeded and the independent "
               "verifier recomputed and matched the signature (distinct signatures are counted)"),
@@ -25,9 +25,9 @@ CHECKS = {
                           "(NULL, NULL with length, empty .. 102400 bytes), 4 expiries, 11 clock values incl. failure",
                     thorough="4 variants, K=4 (all quadruples); string lengths {0,1,2,3,8,63,64,65,199,200}, 14 secret lengths, 17 bodies, 6 expiries, 16 clock values "
                              "(these bounds also serve the quick tier: 3347905 cases). ./check --tier thorough runs the harness with --deep: K=4 over alphabets extended "
-                             "once more -- string lengths + {4,16,32,127,128} (15), secret lengths + {16,32,100,187,188,189} (20; 'AWS4'+secret crosses the third HMAC "
-                             "block), bodies + {2,54,57,118,121,8192,32768} bytes (24), expiries + {2,59,60,86399} (10), clock values + {59,60,3599,3600,1999-12-31 "
-                             "23:59:59 and the next second, 2^32-1, 2^32} (24): 15772650 cases"),
+                             "once more -- string lengths + {4,16,32,100,127,128,129} (17), secret lengths + {16,32,100,187,188,189} (20; 'AWS4'+secret crosses the third HMAC "
+                             "block), bodies + {2,54,57,118,121,184,8192,16384,32768} bytes (26), expiries + {2,59,60,86399} (10), clock values + {59,60,3599,3600,1999-12-31 "
+                             "23:59:59 and the next second, 2000-12-31 23:59:59, 2004-02-29 23:59:59, 2^32-1, 2^32} (26): 22653766 cases"),
         assumptions=["time() replaced by the harness at link time; the fake clock advances one second per call",
                      "inputs over the URI-unreserved alphabet (the interface does no percent-encoding), secrets over printable ASCII, paths are absolute",
                      "reference: engine/ref/sigv4_ref.c over OpenSSL SHA-256/HMAC, self-tested on two examples of the AWS documentation"],
